@@ -132,6 +132,17 @@ CHECKS = {
         note='Real elapsed time is not measured ("as soon as" = no additional sleep round). __del__ only via explicit close. random.shuffle replaced by identity for comparison.',
         technique='Lean 4 proof (state machine, induction over fuel/queue/rounds) over a hand model; differential correspondence on op histories with environment scripts',
         design='5 C11'),
+    'C18': dict(
+        text='Theorems: a strict prefix of any valid encoding yields no token; CUT THEOREM - for every message list and every byte offset k, '
+             'parsing the first k bytes yields exactly the messages whose encodings lie completely within them; segmentation independence '
+             '(C05); descriptor released by the repaired close under CPython\'s makefile/close rule; format/parse of host:port inverse for '
+             'every host without colon and port 1..65535 (decimal numeral round trip proved for all naturals), parse->format->parse '
+             'stable. Drain-then-stop and MultiPort promptness come from C11. Correspondence on real sockets: every cut offset x '
+             'segmentations over socketpair, peer-visible close, loopback PortServer with two clients, all ports.',
+        note='Kernel buffering / select / TCP semantics are the OS\'s (assumed: bytes before close readable in order, then EOF). The composition '
+             '"SocketPort iteration = parser cut + port drain" is tied by correspondence, the two halves are theorems. int() beyond ASCII digits is outside the address model.',
+        technique='Lean 4 proof (prefix/cut theorem by induction over the message list on top of the tokenizer resync lemmas; numeral round trip) + differential correspondence on real sockets',
+        design='5 C18'),
 }
 
 PENDING = ['C02', 'C03', 'C04', 'C05', 'C06', 'C07', 'C08', 'C09', 'C10', 'C11', 'C12', 'C13', 'C14', 'C15',
